@@ -193,6 +193,45 @@ class SockProxy:
             raise ValueError(exc)
 
 
+class DynSockProxy(SockProxy):
+    """the session exposes its socket through a read-only property (it may create / replace the socket on demand): every call goes
+    to whatever that property returns at the time of the call"""
+
+    def __init__(self, getter, rec2, sid, ctx, cfgref, quiet_block=False):
+        self.__dict__["_getter"] = getter
+        SockProxy.__init__(self, None, rec2, sid, ctx, cfgref, quiet_block)
+
+    @property
+    def _real(self):
+        return self.__dict__["_getter"]()
+
+    @_real.setter
+    def _real(self, v):
+        pass
+
+
+def install_proxy(session, rec2, sid, ctx, cfgref, quiet_block=False):
+    """put the recording proxy between the session and its socket.  The attribute `_sock` is private to the library: when a tree
+    under test has turned it into something that cannot be assigned (a property without a setter), the session object gets a
+    subclass of its own class whose `_sock` is the proxy, and the proxy forwards to the original property."""
+    try:
+        proxy = SockProxy(session._sock, rec2, sid, ctx, cfgref, quiet_block)
+        session._sock = proxy
+        return proxy
+    except AttributeError:
+        cls = type(session)
+        prop = None
+        for k in cls.__mro__:
+            if isinstance(k.__dict__.get("_sock"), property):
+                prop = k.__dict__["_sock"]
+                break
+        if prop is None:
+            raise
+        proxy = DynSockProxy(lambda: prop.fget(session), rec2, sid, ctx, cfgref, quiet_block)
+        session.__class__ = type(cls.__name__, (cls,), {"_sock": property(lambda self: proxy)})
+        return proxy
+
+
 class _Meta(type):
     def __instancecheck__(cls, obj):
         return isinstance(obj, cls.REAL) or isinstance(obj, SockProxy)
@@ -313,8 +352,7 @@ class SyncApi:
             ver = None
         self.session = _make_session(cm, self.rec2, sid, host, port=port, community=cfg.community, engine_id=_engine_arg(cfg, engine_given),
                                      user=user_of(cfg), version=ver, timeout=timeout, **kw)
-        self.proxy = SockProxy(self.session._sock, self.rec2, sid, self.ctx, self.cfgref)
-        self.session._sock = self.proxy
+        self.proxy = install_proxy(self.session, self.rec2, sid, self.ctx, self.cfgref)
         self.core = AgentCore(self.rec2, self.cfgref, sid, self.ctx, responder)
         self.stop = False
         self.th = threading.Thread(target=self._loop, daemon=True)
@@ -385,8 +423,7 @@ class AsyncApi:
             ver = None
         self.session = _make_session(cm, self.rec2, sid, host, port=port, community=cfg.community, engine_id=_engine_arg(cfg, engine_given),
                                      user=user_of(cfg), version=ver, timeout=timeout, **kw)
-        self.proxy = SockProxy(self.session._sock, self.rec2, sid, self.ctx, self.cfgref, quiet_block=True)
-        self.session._sock = self.proxy
+        self.proxy = install_proxy(self.session, self.rec2, sid, self.ctx, self.cfgref, quiet_block=True)
         return self
 
     def close(self):
